@@ -213,7 +213,7 @@ fn must_diagnose(t: &Type, v: &Type, neg_literal: bool) -> Option<&'static str> 
         }
     }
     let special = |k: Kind| matches!(k, Kind::Bit | Kind::BitReg | Kind::Bool | Kind::Duration | Kind::Angle);
-    if kt != kv && (special(kt) || special(kv)) && kt != Kind::Stretch && kv != Kind::Stretch {
+    if kt != kv && (special(kt) || special(kv)) {
         return Some("to or from bit, bool, duration or angle of another kind");
     }
     if kt == kv && !v.is_const() {
